@@ -64,7 +64,8 @@ def fully_connect(
         .sample(num_pre, replace=True)
         .index.to_numpy()
     )
-    global_post_indices = global_post_indices.reshape((-1, num_pre), order="F").ravel()
+    # `.sample()` returns `num_pre` compartments for each of the `num_post` cells.
+    global_post_indices = global_post_indices.reshape((num_post, num_pre)).T.ravel()
     post_rows = post_cell_view.nodes.loc[global_post_indices]
 
     # Pre-synapse is at the zero-eth branch and zero-eth compartment.
